@@ -146,8 +146,12 @@ def z3any(v):
     return z3num(v)
 
 
+FAST = [False]
+
+
 def mk_bool(t):
-    t = z3.simplify(t)
+    if not FAST[0]:
+        t = z3.simplify(t)
     if z3.is_true(t):
         return True
     if z3.is_false(t):
@@ -158,7 +162,8 @@ def mk_bool(t):
 def mk_num(t, nan=None):
     """Wrap an arithmetic z3 term; fold literals back to Python numbers."""
     if nan is not None:
-        nan = z3.simplify(nan)
+        if not FAST[0]:
+            nan = z3.simplify(nan)
         if z3.is_false(nan):
             nan = None
         elif z3.is_true(nan):
